@@ -567,6 +567,7 @@ func c20ExpectedObs(st *c20State, vocab []c20Pred) (*c20Obs, bool) {
 // predicate i, C<i> its clause/2 listing.
 func c20ObsQuery(vocab []c20Pred) string {
 	var parts []string
+	var later []func()
 	for i, p := range vocab {
 		goal, head := p.Name, p.Name
 		tmpl := "t(x)"
@@ -580,11 +581,78 @@ func c20ObsQuery(vocab []c20Pred) string {
 			head += "(" + strings.Join(us, ", ") + ")"
 			tmpl = "t(x, " + strings.Join(vs, ", ") + ")"
 		}
+		if p.Arity > 0 {
+			// the same predicate called with its first argument instantiated to every atomic value the general call
+			// delivered there (B<i>): must select exactly the matching subset (checked against A<i> itself)
+			later = append(later, func(i int, p c20Pred) func() {
+				return func() {
+					var ys []string
+					for k := 1; k < p.Arity; k++ {
+						ys = append(ys, fmt.Sprintf("Y%d_%d", i, k))
+					}
+					rest, blanks := "", ""
+					if len(ys) > 0 {
+						rest = ", " + strings.Join(ys, ", ")
+						blanks = strings.Repeat(", _", len(ys))
+					}
+					parts = append(parts, fmt.Sprintf("catch(findall(t(x, K%d%s), (member(t(x, K%d%s), A%d), atomic(K%d), %s(K%d%s)), B%d), error(G%d, _), B%d = err(G%d))",
+						i, rest, i, blanks, i, i, p.Name, i, rest, i, i, i, i))
+				}
+			}(i, p))
+		}
 		parts = append(parts,
 			fmt.Sprintf("catch(findall(%s, %s, A%d), error(E%d, _), A%d = err(E%d))", tmpl, goal, i, i, i, i),
 			fmt.Sprintf("catch(findall(c(H%d, B%d), (H%d = %s, clause(H%d, B%d)), C%d), error(F%d, _), C%d = err(F%d))", i, i, i, head, i, i, i, i, i, i))
 	}
+	for _, f := range later {
+		f()
+	}
 	return strings.Join(parts, ", ") + "."
+}
+
+// c20BoundCallDiff: the answers of the calls with an instantiated first argument (got) against the answers of the
+// general call (all): for every element of all whose first argument K is atomic, in order, the elements of all whose
+// first argument is K or a variable, in order, with K in that place. "" = consistent.
+func c20BoundCallDiff(all, got *term.Term) string {
+	es, tail := term.ListElems(all)
+	if !tail.IsAtom("[]") || all.IsCmp("err", 1) {
+		return "" // the general call raised: nothing to select from
+	}
+	var want []*term.Term
+	for _, e := range es {
+		if !e.IsCmp("t", len(e.Args)) || len(e.Args) < 2 {
+			return ""
+		}
+		k := e.Args[1]
+		if k.K != term.KAtom && k.K != term.KInt && k.K != term.KFloat {
+			continue
+		}
+		for _, f := range es {
+			switch a := f.Args[1]; {
+			case a.K == term.KVar:
+				id := a.I
+				want = append(want, term.Map(f, func(v int64) *term.Term {
+					if v == id {
+						return k
+					}
+					return term.V(v)
+				}))
+			case term.Variant(a, k):
+				want = append(want, f)
+			}
+		}
+	}
+	// elements are copies (findall): compare element by element up to renaming
+	ges, gtail := term.ListElems(got)
+	if !gtail.IsAtom("[]") || len(ges) != len(want) {
+		return fmt.Sprintf("%s instead of %s", c20Show(got), c20Show(term.L(want...)))
+	}
+	for i := range want {
+		if !term.Variant(want[i], ges[i]) {
+			return fmt.Sprintf("%s instead of %s", c20Show(got), c20Show(term.L(want...)))
+		}
+	}
+	return ""
 }
 
 // c20StateText renders a state for samples and messages.
